@@ -1,6 +1,7 @@
 """Sidecar JSON file storing a skeleton to create stubs and patch containers."""
 from __future__ import annotations
 
+from copy import deepcopy
 from pathlib import Path
 from typing import Any, Dict, List, Optional, Union
 from uuid import UUID, uuid1
@@ -231,7 +232,7 @@ class IH5MFRecord(IH5Record):
         if self._manifest is not None:  # inherit attached data, if manifest exists
             mf.manifest_exts = self.manifest.manifest_exts
         if exts is not None:  # override, if extensions provided
-            mf.manifest_exts = exts
+            mf.manifest_exts = deepcopy(exts)  # (caller could modify its object later)
 
         old_ub = self._ublock(-1)  # keep ref in case anything goes wrong
         # prepare new user block that links to the prospective manifest
